@@ -165,6 +165,7 @@ VA:
 						}
 						if !present {
 							resp <- VarAns{ANS_OK, guessed}
+							verifYieldBondgo("notify")
 							useditem <- UsageNotify{TR_PROC, rproc, C_REGSIZE, S_NIL, i + 1}
 							busylist[rproc] = append(busylist[rproc], guessed)
 							created = true
@@ -193,6 +194,7 @@ VA:
 						}
 						if !present {
 							resp <- VarAns{ANS_OK, guessed}
+							verifYieldBondgo("notify")
 							useditem <- UsageNotify{TR_PROC, rproc, C_REGSIZE, S_NIL, i + 1}
 							busylist[rproc] = append(busylist[rproc], guessed)
 							created = true
